@@ -2,11 +2,13 @@ package c19
 
 import (
 	"bytes"
+	"context"
 	"os"
 	"os/exec"
 	"regexp"
 	"strconv"
 	"strings"
+	"time"
 )
 
 // one traced system call
@@ -176,7 +178,9 @@ func runStrace(logfile string, inject string, argv []string, env []string) (*tra
 		args = append(args, "-e", "inject="+inject)
 	}
 	args = append(args, argv...)
-	cmd := exec.Command("strace", args...)
+	ctx, cancel := context.WithTimeout(context.Background(), 40*time.Second)
+	defer cancel()
+	cmd := exec.CommandContext(ctx, "strace", args...)
 	var so, se bytes.Buffer
 	cmd.Stdout, cmd.Stderr = &so, &se
 	if env != nil {
@@ -184,6 +188,13 @@ func runStrace(logfile string, inject string, argv []string, env []string) (*tra
 	}
 	err := cmd.Run()
 	t := &traced{Stdout: so.Bytes()}
+	if ctx.Err() != nil { // no answer within the wall-clock limit: reported as a failed run
+		exec.Command("pkill", "-9", "-f", strings.Join(argv, " ")).Run() // the tracee survives strace
+		t.Exit = 124
+		t.Stdout = []byte(`{"panic":true,"msg":"no answer within 40s"}`)
+		Hung++
+		return t, nil
+	}
 	if err != nil {
 		if ee, ok := err.(*exec.ExitError); ok {
 			t.Exit = ee.ExitCode()
